@@ -66,6 +66,86 @@ async def scenario(nan_name, nan_value, field):
     return None
 
 
+async def fidelity(values):
+    """A metric that arrives as a finite number is handed on as exactly that number (no rounding, scaling or clipping):
+    the pool's bounds and the distributor's bounds are computed from the same readings (C17), and so are SoC / capacity."""
+    from frequenz.channels import Broadcast
+    from frequenz.client.microgrid import (BatteryComponentState, BatteryData, BatteryRelayState, ComponentMetricId,
+                                           InverterComponentState, InverterData)
+    from frequenz.sdk.microgrid import connection_manager
+    from frequenz.sdk.timeseries.battery_pool._component_metric_fetcher import (LatestBatteryMetricsFetcher,
+                                                                              LatestInverterMetricsFetcher)
+    bchan, ichan = Broadcast(name="bat9"), Broadcast(name="inv8")
+
+    class Api:
+        async def battery_data(self, cid, maxsize=1):
+            return bchan.new_receiver(limit=maxsize)
+
+        async def inverter_data(self, cid, maxsize=1):
+            return ichan.new_receiver(limit=maxsize)
+
+    class Conn:
+        api_client = Api()
+
+    bat_fields = {"soc": ComponentMetricId.SOC, "soc_lower_bound": ComponentMetricId.SOC_LOWER_BOUND,
+                  "soc_upper_bound": ComponentMetricId.SOC_UPPER_BOUND, "capacity": ComponentMetricId.CAPACITY,
+                  "power_inclusion_lower_bound": ComponentMetricId.POWER_INCLUSION_LOWER_BOUND,
+                  "power_exclusion_lower_bound": ComponentMetricId.POWER_EXCLUSION_LOWER_BOUND,
+                  "power_exclusion_upper_bound": ComponentMetricId.POWER_EXCLUSION_UPPER_BOUND,
+                  "power_inclusion_upper_bound": ComponentMetricId.POWER_INCLUSION_UPPER_BOUND}
+    inv_fields = {"active_power_inclusion_lower_bound": ComponentMetricId.ACTIVE_POWER_INCLUSION_LOWER_BOUND,
+                  "active_power_exclusion_lower_bound": ComponentMetricId.ACTIVE_POWER_EXCLUSION_LOWER_BOUND,
+                  "active_power_exclusion_upper_bound": ComponentMetricId.ACTIVE_POWER_EXCLUSION_UPPER_BOUND,
+                  "active_power_inclusion_upper_bound": ComponentMetricId.ACTIVE_POWER_INCLUSION_UPPER_BOUND}
+    now = datetime.now(tz=timezone.utc)
+    bat_kw = {f: values[k % len(values)] for k, f in enumerate(bat_fields)}
+    inv_kw = {f: values[(k + 3) % len(values)] for k, f in enumerate(inv_fields)}
+    nan3 = (math.nan, math.nan, math.nan)
+    with mock.patch.object(connection_manager, "get", lambda: Conn()):
+        fb = await LatestBatteryMetricsFetcher.async_new(9, list(bat_fields.values()))
+        fi = await LatestInverterMetricsFetcher.async_new(8, list(inv_fields.values()))
+        await bchan.new_sender().send(BatteryData(component_id=9, timestamp=now, temperature=20.0, relay_state=BatteryRelayState.CLOSED,
+                                                  component_state=BatteryComponentState.IDLE, errors=[], **bat_kw))
+        await ichan.new_sender().send(InverterData(component_id=8, timestamp=now, active_power=0.0, active_power_per_phase=nan3,
+                                                   current_per_phase=nan3, voltage_per_phase=nan3, reactive_power=0.0,
+                                                   reactive_power_per_phase=nan3, frequency=50.0,
+                                                   component_state=InverterComponentState.IDLE, errors=[], **inv_kw))
+        mb = await asyncio.wait_for(fb.fetch_next(), 10.0)
+        mi = await asyncio.wait_for(fi.fetch_next(), 10.0)
+    for m, fields, kw, what in ((mb, bat_fields, bat_kw, "battery"), (mi, inv_fields, inv_kw, "inverter")):
+        if m is None:
+            return f"the {what} fetcher returned nothing for complete data {kw}"
+        for f, mid in fields.items():
+            if m.get(mid) != kw[f]:
+                return f"{what} metric {mid.name} arrived as {kw[f]!r} and was handed on as {m.get(mid)!r}"
+    return None
+
+
+def soc_in_range(rng, n):
+    """The pool SoC stays within [0, 100] in float arithmetic: fleets of 1-4 batteries with non-integer capacities and
+    SoC limits; batteries below, inside, at and above their limits (full and empty fleets included)."""
+    from frequenz.client.microgrid import ComponentMetricId as M
+    from frequenz.sdk.timeseries.battery_pool._component_metrics import ComponentMetricsData
+    from frequenz.sdk.timeseries.battery_pool._metric_calculator import SoCCalculator
+    now = datetime.now(tz=timezone.utc)
+    for _ in range(n):
+        k = rng.randint(1, 4)
+        mode = rng.choice(["full", "empty", "mixed"])
+        data, desc = {}, []
+        for b in range(k):
+            lo, hi = round(rng.uniform(0.0, 30.0), 1), round(rng.uniform(70.0, 100.0), 1)
+            soc = {"full": rng.choice([hi, hi + 0.7, 100.0]), "empty": rng.choice([lo, max(0.0, lo - 0.7), 0.0]),
+                   "mixed": round(rng.uniform(0.0, 100.0), 2)}[mode]
+            cap = round(rng.uniform(500.0, 12000.0), 1)
+            data[b] = ComponentMetricsData(b, now, {M.SOC: soc, M.SOC_LOWER_BOUND: lo, M.SOC_UPPER_BOUND: hi, M.CAPACITY: cap})
+            desc.append({"soc": soc, "lower": lo, "upper": hi, "capacity": cap})
+        res = SoCCalculator(frozenset(range(k))).calculate(data, set(range(k)))
+        v = None if res is None or res.value is None else res.value.base_value
+        if v is not None and not 0.0 <= v <= 100.0:
+            return f"pool SoC {v!r} is outside [0, 100] for batteries {desc}", desc
+    return None, None
+
+
 def run(req):
     t0 = time.time()
     cases = list(itertools.product(nan_variants().items(), ["soc", "soc_lower_bound", "soc_upper_bound", "capacity"]))
@@ -78,10 +158,32 @@ def run(req):
         if f:
             failure = (f, {"nan": name, "field": field})
             break
+    n_extra = 0
+    for values in ([180.7, 1900.9, 33.33, 0.4, -180.7, -0.25, 7.5, 99.99], [0.5, 1.5, 2.5, -1.5, 1e-3, 12345.678, 50.0, 80.0]):
+        if failure:
+            break
+        n_extra += 1
+        try:
+            f = asyncio.run(fidelity(values))
+        except Exception as e:  # pylint: disable=broad-except
+            f = f"scenario raised {type(e).__name__}: {e}"
+        if f:
+            failure = (f, {"readings": values})
+    if not failure:
+        import random
+        n_fleets = 3000 if req.get("tier", "quick") == "quick" else 30000
+        n_extra += n_fleets
+        f, desc = soc_in_range(random.Random(int(req.get("seed", 0))), n_fleets)
+        if f:
+            failure = (f, {"batteries": desc})
+    cases = cases + [None] * n_extra
     out = {"status": "failed" if failure else "ok", "evaluations": len(cases), "distinct": len(cases), "known": {},
-           "samples": [{"nan": n, "field": f} for (n, _), f in cases[:2]], "wall_s": round(time.time() - t0, 2),
-           "exhaustive": failure is None,
-           "rule": "5 ways of producing a NaN x 4 battery metrics, one battery with the NaN next to a healthy one; all distinct"}
+           "samples": [{"nan": c[0][0], "field": c[1]} for c in cases[:2]], "wall_s": round(time.time() - t0, 2),
+           "exhaustive": False,
+           "rule": "5 ways of producing a NaN x 4 battery metrics, one battery with the NaN next to a healthy one; 2 sets of "
+                   "non-integer readings through the real battery / inverter fetchers (handed on unchanged); seeded random "
+                   "fleets of 1-4 batteries with non-integer capacities and limits, full / empty / mixed: pool SoC within "
+                   "[0, 100] in floats; all distinct"}
     if failure:
         out["failure"] = {"clause": "a NaN metric counts as missing", "detail": failure[0]}
         out["inputs"] = failure[1]
